@@ -205,7 +205,10 @@ fn run_l1(sink: &mut CaseSink, o: &Opts, fs: &[HF]) {
     sink.push_line(term, fs.len() >= 2, line);
 }
 
-fn run_l2(sink: &mut CaseSink, o: &Opts, evs: &[Ev]) {
+/// `pipelined`: the server does not wait for the client's answers - what it has to say next is
+/// pushed right behind (as its own read episode), so a frame can arrive in the very pass that
+/// flushes the previous answer
+fn run_l2(sink: &mut CaseSink, o: &Opts, evs: &[Ev], pipelined: bool) {
     let (stream, peer) = mock_pair();
     let opts = o.to_options();
     let (tx, rx) = std::sync::mpsc::channel();
@@ -256,6 +259,9 @@ fn run_l2(sink: &mut CaseSink, o: &Opts, evs: &[Ev]) {
                         Term::IoErr => peer.push_episode(if bytes.is_empty() { Episode::Reset } else { Episode::DataReset(bytes) }),
                         _ => peer.push(bytes),
                     }
+                    if pipelined && matches!(term, Term::Block) {
+                        continue;
+                    }
                     // wait until the episode has been consumed, then give the client a moment to answer
                     peer.wait(|s| s.episodes_done > done_before || s.dropped, Duration::from_millis(500));
                     if let Ok(r) = rx.recv_timeout(Duration::from_millis(12)) {
@@ -305,9 +311,9 @@ fn run_l2(sink: &mut CaseSink, o: &Opts, evs: &[Ev]) {
         Ev::Read(fs, t) => format!("HRead {} {}", coqfmt::list(fs, |f| f.coq()), match t { Term::Block => "HtBlock", Term::Eof => "HtEof", Term::IoErr => "HtIoErr", Term::Malformed => "HtMalformed" }),
     };
     let term = format!("L2 {} {} {} {}", o.coq(), coqfmt::list(evs, ev_coq), obs, coqfmt::list(&sent, |x| x.clone()));
-    sink.count("kind:L2");
+    sink.count(if pipelined { "kind:L2-pipelined-server" } else { "kind:L2" });
     let bad_line = if bad { " @badprops" } else { "" };
-    sink.push_line(term, !evs.is_empty(), format!("L2 {}{}", ser(o, evs), bad_line));
+    sink.push_line(term, !evs.is_empty(), format!("{} {}{}", if pipelined { "L2p" } else { "L2" }, ser(o, evs), bad_line));
 }
 
 // ---- generation ----
@@ -470,7 +476,7 @@ pub fn run(a: &Args) {
         if kind == "L1" {
             if let Some(Ev::Read(fs, _)) = evs.first() { run_l1(&mut sink, &o, fs); }
         } else {
-            run_l2(&mut sink, &o, &evs);
+            run_l2(&mut sink, &o, &evs, kind == "L2p");
         }
         sink.finish("");
         return;
@@ -484,14 +490,14 @@ pub fn run(a: &Args) {
                     let line = line.split('#').next().unwrap().trim();
                     let mut it = line.split_whitespace();
                     if let (Some(kind), Some(x), y) = (it.next(), it.next(), it.next()) {
-                        if kind != "L1" && kind != "L2" {
+                        if kind != "L1" && kind != "L2" && kind != "L2p" {
                             continue;
                         }
                         let (o, evs) = deser(x, y.unwrap_or(""));
                         if kind == "L1" {
                             if let Some(Ev::Read(fs, _)) = evs.first() { run_l1(&mut sink, &o, fs); }
                         } else {
-                            run_l2(&mut sink, &o, &evs);
+                            run_l2(&mut sink, &o, &evs, kind == "L2p");
                         }
                     }
                 }
@@ -529,7 +535,7 @@ pub fn run(a: &Args) {
             let fs: Vec<HF> = evs.iter().flat_map(|e| match e { Ev::Read(fs, _) => fs.clone(), _ => vec![] }).collect();
             run_l1(&mut sink, &o, &fs);
         } else {
-            run_l2(&mut sink, &o, &evs);
+            run_l2(&mut sink, &o, &evs, i % 3 == 2);
         }
     }
     let bad = sink.dist.get("BAD_CLIENT_PROPERTIES").cloned().unwrap_or(0);
